@@ -247,6 +247,51 @@ def run_check(prop, tier, seed):
                     it.backend = 'replay(%s)' % origin
                     it.refuted_by = {'origin': origin, 'inputs': inp, 'replay': res}
                     break
+    # bounded refutation: obligations still undecided are re-generated with every sequence-typed input
+    # instantiated to a list of 1 and of 2 symbolic elements. Such an instance is an instance of the same
+    # verification condition with the quantifiers expanded, so a counter-model of it IS a counter-model of the
+    # obligation; finding none proves nothing and the obligation stays undecided.
+    still = [it for it in items if it.result == 'unknown' and it.ob is not None]
+    by_contract = {}
+    for it in still:
+        by_contract.setdefault(it.cid, []).append(it)
+    for cid, its in by_contract.items():
+        c0 = its[0].fr.contract
+        if c0.shape:
+            continue
+        from .types import SeqT as _SeqT, OptT as _OptT
+        seqnames = [n for n, t in list(c0.params.items()) + list(c0.ghost.items()) +
+                    [(k, v) for k, v in c0.free.items() if isinstance(v, (_SeqT, _OptT))]
+                    if isinstance(t, _SeqT) or (isinstance(t, _OptT) and isinstance(t.inner, _SeqT))]
+        if not seqnames:
+            continue
+        import copy as _copy
+        for n in (1, 2):
+            c2 = _copy.copy(c0)
+            c2.shape = {nm: n for nm in seqnames}
+            c2.id = c0.id
+            try:
+                fr2 = verify_function(c2, reg, REPO)
+            except Exception:
+                continue
+            if fr2.status != 'ok':
+                continue
+            wanted = {(it.kind, it.label) for it in its if it.result == 'unknown'}
+            obs = [o for o in fr2.obligations if (o.kind, o.label) in wanted]
+            if not obs:
+                continue
+            rs = discharge([obligation_smt2(fr2.axioms, o) for o in obs], timeout_s=min(timeout, 10))
+            for o, r in zip(obs, rs):
+                solver_cpu += r['time']
+                if r['result'] == 'sat':
+                    for it in its:
+                        if it.result == 'unknown' and (it.kind, it.label) == (o.kind, o.label):
+                            it.result = 'sat'
+                            it.backend = '%s (bounded instance, sequences of length %d)' % (r['backend'], n)
+                            it.reason += ' | refuted on a bounded instance of the same obligation'
+                            it.values = None
+                            it.values_sexpr = None
+                            break
     # vacuity
     for it in covers:
         if it.result == 'unsat':
